@@ -10,7 +10,7 @@
    (rio_xml 0.8.6 formatter.rs), and the two readers: strict = false is rio_xml's parser over
    quick-xml (unesc, no normalisation, whitespace-only text dropped), strict = true is XML 1.0
    (Char, 2.11, 3.3.3, references) + Namespaces + RDF/XML for the vocabulary the formatter uses. *)
-From Sophia.C18 Require Import Model Proofs.
+From Sophia.C18 Require Import Model Proofs Paths PathsProofs.
 
 (* ---- (1) escaping and its inverse (quick-xml / XML 1.0) ---- *)
 Check (rio_unescape_escape : forall s : str, rio_unescape (escape s) = Some s).
@@ -76,6 +76,45 @@ Check (guarded_roundtrip : forall strict k g,
   serialize true k g = SerOk (flatten (doc_events k (map (ren_t true) (rts g))))
   /\ model_parse true strict k g = Some (expected_parse true g)).
 
+(* ---- (7) every public way of driving the serializer (C18/Paths.v) ---- *)
+(* serialize_graph is a PROVIDED trait method: whatever an implementation does there must equal this *)
+Check (serialize_graph_spec : forall guard k listing,
+  serialize_via EGraph guard k listing = serialize_via ETriples guard k listing).
+Check (listing_seq : forall g fed, listing_ok CSeq g fed = true -> fed = g).
+Check (listing_members : forall c g fed, listing_ok c g fed = true -> forall t, mem3 t fed = mem3 t g).
+Check (listing_representable : forall c g fed, listing_ok c g fed = true ->
+  forall t, mem3 t (filter representable fed) = mem3 t (filter representable g)).
+Check (container_roundtrip : forall c e strict k g fed,
+  listing_ok c g fed = true ->
+  forallb flat3 fed = true -> forallb expressible (rts fed) = true ->
+  forallb (triple_valid strict) (rts fed) = true ->
+  serialize_via e true k fed = SerOk (flatten (doc_events k (map (ren_t true) (rts fed))))
+  /\ model_parse true strict k fed = Some (expected_parse true fed)
+  /\ forall t, mem3 t (filter representable fed) = mem3 t (filter representable g)).
+Check (entries_agree : forall c guard k g fed o,
+  path_ok c guard k g fed o = true ->
+  ser_ok guard k fed o = true /\ serialize_via EGraph guard k fed = serialize_via ETriples guard k fed
+  /\ forall t, mem3 t fed = mem3 t g).
+Check (ser_calls_app : forall guard k gs buf,
+  ser_calls guard k buf gs = (buf ++ fst (ser_calls guard k [] gs), snd (ser_calls guard k [] gs))).
+Check (ser_calls_concat : forall guard k gs buf t,
+  concat_docs (docs_of guard k gs) = Some t -> ser_calls guard k buf gs = (buf ++ t, None)).
+Check (ser_calls_error : forall guard k gs buf,
+  concat_docs (docs_of guard k gs) = None -> exists b e, ser_calls guard k buf gs = (b, Some e)).
+Check (calls_roundtrip : forall strict k gs,
+  forallb (in_class strict) gs = true ->
+  exists t, ser_calls true k [] gs = (t, None) /\ concat_docs (docs_of true k gs) = Some t
+  /\ forall g, In g gs ->
+       serialize true k g = SerOk (flatten (doc_events k (map (ren_t true) (rts g))))
+       /\ model_parse true strict k g = Some (expected_parse true g)).
+Check (utf8_len_app : forall a b, utf8_len (a ++ b) = utf8_len a + utf8_len b).
+Check (utf8_len_length : forall s, N.of_nat (length s) <= utf8_len s).
+Check (ser_limited_mono : forall guard k g n m, n <= m -> ser_limited guard k g n = true -> ser_limited guard k g m = true).
+Check (ser_limited_exact : forall guard k g d, serialize guard k g = SerOk d ->
+  ser_limited guard k g (utf8_len d) = true /\ forall n, n < utf8_len d -> ser_limited guard k g n = false).
+Check (ser_limited_error : forall guard k g n, (forall d, serialize guard k g <> SerOk d) -> ser_limited guard k g n = false).
+Check ex_container. Check ex_calls. Check ex_calls_error. Check ex_graph_digit_label. Check ex_limited.
+
 (* ---- non-vacuity and refutations outside the classes ---- *)
 Check ex_graph_in_both_classes. Check ex_graph_roundtrip. Check ex_graph2_guarded. Check split_examples.
 Check cr_text_refuted. Check crlf_text_refuted. Check tab_attr_refuted. Check ws_only_text_refuted.
@@ -117,3 +156,19 @@ Print Assumptions rdf_li_refuted.
 Print Assumptions unsplittable_predicate_refuted.
 Print Assumptions cr_literal_refuted.
 Print Assumptions illegal_char_written.
+Print Assumptions serialize_graph_spec.
+Print Assumptions listing_seq.
+Print Assumptions listing_members.
+Print Assumptions listing_representable.
+Print Assumptions container_roundtrip.
+Print Assumptions entries_agree.
+Print Assumptions ser_calls_app.
+Print Assumptions ser_calls_concat.
+Print Assumptions ser_calls_error.
+Print Assumptions calls_roundtrip.
+Print Assumptions utf8_len_app.
+Print Assumptions utf8_len_length.
+Print Assumptions ser_limited_mono.
+Print Assumptions ser_limited_exact.
+Print Assumptions ser_limited_error.
+Print Assumptions ex_graph_digit_label.
